@@ -1272,6 +1272,10 @@ def calculate_drt_bht(
             raise ValueError(
                 f"There are no unmasked data points in the '{data.get_label()}' data set parsed from '{data.get_path()}'"
             )
+        elif len(f) < 2:
+            raise ValueError(
+                f"Expected at least two unmasked data points instead of {len(f)} in the '{data.get_label()}' data set"
+            )
 
         tau: NDArray[float64] = 1 / f
         tau_fine: NDArray[float64] = logspace(
